@@ -7,7 +7,7 @@ set -u
 P=$1; M=$2; WT=/tmp/mut-$P; OUT=$WT/OUT/$M
 cd $WT || exit 2
 clean() { git -C $WT checkout -q -- . ; git -C $WT clean -qfd -e OUT -e target; }
-export CARGO_TARGET_DIR=$WT/target CARGO_NET_OFFLINE=true
+export CARGO_TARGET_DIR=$WT/target CARGO_NET_OFFLINE=true TMPDIR=$WT/target/tmpdir; mkdir -p $TMPDIR   # private temp dir: the repo tests share fixed paths below temp_dir()
 CRATES=$(python3 -c "import json;print(' '.join('-p '+c for c in json.load(open('$OUT/meta.json'))['touched_crates']))")
 DEMO=$(python3 -c "import json;print(json.load(open('$OUT/meta.json'))['demo_cmd'])")
 clean; git apply $OUT/patch.diff || { echo "PATCH-DOES-NOT-APPLY"; exit 2; }
